@@ -514,6 +514,7 @@ def emit_module(unit, mod, path, strict, entries, extras):
         unit.add(reindent(ex.extra, indent))
         unit.items.append({'item': mod + ' :: ghost ' + ex.key, 'kind': 'ghost', 'mode': 'ghost (spec/proof text from the contract store)',
                            'lines': [start, unit.lineno() - 1], 'contract_origin': ex.origin})
+        add_ghost_fn_items(unit, mod, reindent(ex.extra, indent), start, ex.origin)
     unit.add('}')
     for k, e in entries.items():
         if not e.used:
@@ -543,6 +544,21 @@ def emit_traits(unit, repo, entries):
                            'lines': [start, unit.lineno() - 1], 'rewrites': ['trait-method-dropped:' + d for d in dropped]})
 
 
+def add_ghost_fn_items(unit, mod, text, start, origin):
+    """one manifest item per spec/proof fn of a ghost text block (line range = up to the next fn)"""
+    lines = text.split('\n')
+    starts = []
+    for i, l in enumerate(lines):
+        m = re.match(r'\s*pub\s+(?:open\s+|closed\s+)?(spec|proof)\s+fn\s+([A-Za-z_0-9]+)', l)
+        if m:
+            starts.append((i, m.group(1), m.group(2)))
+    for k, (i, kind, name) in enumerate(starts):
+        end = (starts[k + 1][0] - 1) if k + 1 < len(starts) else len(lines) - 1
+        unit.items.append({'item': '%s :: %s fn %s' % (mod, kind, name), 'kind': 'lemma' if kind == 'proof' else 'spec',
+                           'mode': 'verified' if kind == 'proof' else 'ghost (spec definition)', 'fn': name, 'module': mod, 'scope': '',
+                           'lines': [start + i, start + end], 'contract_origin': origin})
+
+
 def build_unit(repo, contracts=None, extra_files=()):
     contracts = contracts or os.path.join(VERIF, 'contracts')
     unit = Unit()
@@ -557,8 +573,9 @@ def build_unit(repo, contracts=None, extra_files=()):
     for fn in sorted(os.listdir(spec_dir)):
         if fn.endswith('.rs'):
             start = unit.lineno()
-            unit.add(open(os.path.join(spec_dir, fn), encoding='utf-8').read().rstrip('\n'))
-            unit.items.append({'item': 'spec :: ' + fn, 'kind': 'ghost', 'mode': 'ghost (spec library)', 'lines': [start, unit.lineno() - 1]})
+            text = open(os.path.join(spec_dir, fn), encoding='utf-8').read().rstrip('\n')
+            unit.add(text)
+            add_ghost_fn_items(unit, 'spec', text, start, fn)
     unit.add('}')
     unit.add('#[allow(unused_imports)] pub use crate::date::{Date, Month, WeekDay};')
     unit.add('#[allow(unused_imports)] pub use crate::error::Error;')
